@@ -792,6 +792,11 @@ def stream_tail(it, st, s):
         if inner.kind == 'src':
             sl, mode = inner.parts
             return Stream('rev', (Stream('src', (SliceRef(sl.root, sl.path, sl.start, it.isub(sl.end, one), sl.mut), mode)),))
+        if inner.kind == 'range':
+            return Stream('rev', (Stream('range', (inner.parts[0], it.isub(inner.parts[1], one))),))
+        if inner.kind == 'enumerate' and inner.parts[0].kind == 'src':
+            sl, mode = inner.parts[0].parts
+            return Stream('rev', (Stream('enumerate', (Stream('src', (SliceRef(sl.root, sl.path, sl.start, it.isub(sl.end, one), sl.mut), mode)), inner.parts[1])),))
         raise Unsupported('tail of rev(%s)' % inner.kind)
     if k in ('cloned',):
         return Stream(k, (stream_tail(it, st, s.parts[0]),))
@@ -1378,3 +1383,72 @@ def _(ctx):
 @model('<std::vec::Vec<T, A>>::first', '<std::vec::Vec<T, A>>::last')
 def _(ctx):
     raise Unsupported('Vec::first/last are slice methods')
+
+
+@model('std::iter::DoubleEndedIterator::rfold')
+def _(ctx):
+    s = _stream_arg(ctx, ctx.args[0])
+    sub = CallCtx(ctx.interp, ctx.frame, ctx.state, ctx.term, [Stream('rev', (s,)), ctx.args[1], ctx.args[2]], ctx.fn, ctx.dest_ty)
+    r = MODELS['std::iter::Iterator::fold'](sub)
+    ctx.state = sub.state
+    return r
+
+
+@model('<[T; N]>::map')
+def _(ctx):
+    a = ctx.args[0]
+    if not isinstance(a, Arr):
+        raise Unsupported('array::map on %s' % type(a).__name__)
+    return Arr(tuple(ctx.interp.call_closure(ctx, ctx.args[1], [e]) for e in a.elems))
+
+
+@model('std::array::from_fn')
+def _(ctx):
+    dt = ctx.dest_ty
+    if dt is None or dt['k'] != 'array' or dt['len'] is None:
+        raise Unsupported('array::from_fn with unknown length')
+    return Arr(tuple(ctx.interp.call_closure(ctx, ctx.args[0], [iconst(i)]) for i in range(dt['len'])))
+
+
+def _call_fn_trait(ctx):
+    it = ctx.interp
+    f = ctx.args[0]
+    tup = ctx.args[1]
+    args = list(tup.fields) if isinstance(tup, Tup) else [tup]
+    target = f
+    if isinstance(f, Ref):
+        inner = it.read(ctx.state, f.root, f.path)
+        if isinstance(inner, Ref):          # &&closure
+            target = inner
+            inner = it.read(ctx.state, inner.root, inner.path)
+        if isinstance(inner, (Closure, FnItem)):
+            return it.call_closure(ctx, target if isinstance(inner, Closure) else inner, args)
+        return NotImplemented
+    if isinstance(f, (Closure, FnItem)):
+        return it.call_closure(ctx, f, args)
+    return NotImplemented
+
+
+MODELS['std::ops::Fn::call'] = _call_fn_trait
+MODELS['std::ops::FnMut::call_mut'] = _call_fn_trait
+MODELS['std::ops::FnOnce::call_once'] = _call_fn_trait
+MODELS['<[T]>::sort_unstable_by'] = MODELS['<[T]>::sort_by']
+
+
+@model('std::iter::Iterator::rposition')
+def _(ctx):
+    """index (in forward numbering) of the last element satisfying the predicate"""
+    it = ctx.interp
+    s = _stream_arg(ctx, ctx.args[0])
+    st0 = ctx.state
+    ivar, r, sub = _closure_on_elem(ctx, s, ctx.args[1])
+    ctx.state = State(sub.state.store, st0.guard, st0.facts)
+    if not isinstance(r, tuple):
+        raise Unsupported('rposition predicate is not a boolean term')
+    sterm = it.abstract(st0, s)
+    found = ('found', sterm, ivar, r)
+    idx = ('lastidx', sterm, ivar, r)
+    it.events.append({'kind': 'search', 'op': 'rposition', 'fn': ctx.frame.f['path'] if ctx.frame else None,
+                      'line': ctx.line, 'stream': s, 'base': s, 'rev': True, 'ivar': ivar, 'pred': r,
+                      'idx': idx, 'found': found})
+    return opt(found, idx)
